@@ -61,6 +61,7 @@ def generate(rng, tier, index):
         if k != "predict" and rng.random() < 0.3:
             del kinds[k]
     kinds["crash"] = rng.choice([1.5, 3.0])
+    kinds["partial_load"] = 0.8
     kinds["save_point"] = 0.6
     kinds["rollback"] = 0.6
     items = sorted(kinds.items())
@@ -117,6 +118,8 @@ def generate(rng, tier, index):
             ops.append({"op": "save_point", "seed": rng.randrange(1 << 30)})
         elif k == "rollback":
             ops.append({"op": "rollback", "which": rng.randrange(4), "seed": rng.randrange(1 << 30)})
+        elif k == "partial_load":
+            ops.append(gen_partial_load(rng))
         else:
             ops.append(driver.gen_op(rng, recipe, k, allow, p_each))
     ops.append(driver.gen_op(rng, recipe, "predict", allow, p_each))
@@ -124,6 +127,12 @@ def generate(rng, tier, index):
         ops.append(driver.gen_op(rng, recipe, "objective", allow, p_each))
     core.sticky_bundles(rng, ops)
     return {"recipe": recipe, "ops": ops}
+
+
+def gen_partial_load(rng):
+    # load_state_dict(part, strict=False): a checkpoint holding only some of the keys (transfer of hyper-parameters, of
+    # the inducing points, of everything but bookkeeping flags, of one tensor)
+    return {"op": "partial_load", "part": rng.choice(["hypers", "kernel", "likelihood", "strategy_no_q", "one"]), "pick": rng.randrange(1 << 16), "seed": rng.randrange(1 << 30), "probe_seed": rng.randrange(1 << 30)}
 
 
 def gen_crash(rng, how=None):
@@ -507,6 +516,11 @@ def execute(history):
                             else:
                                 out.note_diff("rollback tol=%g" % tol, mx)
                     grad_cached = False
+            elif k == "partial_load":
+                for live in [A] + ([B] if B is not None else []):
+                    partial_load(out, i, live, op, recipe, tol, fam, "A" if live is A else "B")
+                grad_cached = False
+                tag = "partial_load[%s]" % op["part"]
             else:
                 if k == "predict":
                     grad_cached = grad_cached or bool(op.get("grad"))
@@ -571,6 +585,109 @@ def execute(history):
         FAULTS.disarm()
         m_c20.reset_globals()
     return out
+
+
+def partial_load(out, i, live, op, recipe, tol, fam, who):
+    """load_state_dict(part, strict=False) from a donor of the same recipe.  Afterwards (a) every key the dict holds has the
+    donor's value and every other key is untouched, (b) no cache of the previous state is in effect: the next prediction
+    equals that of a freshly constructed model holding the same state."""
+    M = live.model
+    torch.manual_seed(op["seed"])  # construction-time random initialisation of the donor is part of the recorded op
+    donor = driver.Live(recipe).model if live.is_var else zoo.build_exact(recipe, data=driver._cur_data(M, recipe))
+    zoo.randomise_parameters(donor, op["seed"])
+    try:
+        if live.is_var:
+            donor.train()
+            with torch.no_grad():
+                donor(live.x)
+        else:
+            donor.eval()
+            with torch.no_grad():
+                donor(*driver.test_args(recipe, {"seed": op["seed"] + 1, "t": 2}))
+    except Exception:  # noqa
+        pass
+    sd = donor.state_dict()
+    keys = sorted(sd)
+    part = op["part"]
+    if part == "hypers":
+        chosen = [q for q in keys if not q.startswith("variational_strategy.")]
+    elif part == "kernel":
+        chosen = [q for q in keys if q.startswith("covar_module.")]
+    elif part == "likelihood":
+        chosen = [q for q in keys if q.startswith("likelihood.")]
+    elif part == "strategy_no_q":
+        chosen = [q for q in keys if q.startswith("variational_strategy.") and "_variational_distribution" not in q and not q.endswith(("updated_strategy", "variational_params_initialized"))]
+    elif part == "no_flags":
+        chosen = [q for q in keys if not q.endswith(("updated_strategy", "variational_params_initialized"))]
+    else:
+        chosen = [keys[op["pick"] % len(keys)]]
+    before = {q: v.detach().clone() for q, v in M.state_dict().items()}
+    chosen = [q for q in chosen if q in before and before[q].shape == sd[q].shape]
+    # one tensor may be reachable under several names (SGPR: likelihood.* and covar_module.likelihood.*): loading one
+    # name legitimately changes its aliases
+    ptr = {}
+    for q, v in M.state_dict(keep_vars=True).items():
+        if v.numel() > 0:
+            ptr.setdefault(v.data_ptr(), []).append(q)
+    aliases = set()
+    for names in ptr.values():
+        if any(q in chosen for q in names):
+            aliases.update(q for q in names if q not in chosen)
+    if not chosen:
+        out.stats["skipped:partial_load_empty"] += 1
+        return
+    cls = {"family": fam, "how": "partial_state_dict", "part": part}
+    try:
+        M.load_state_dict({q: sd[q].detach().clone() for q in chosen}, strict=False)
+    except Exception as e:  # noqa
+        out.stats["rejected:partial_load_%s_%s" % (part, type(e).__name__)] += 1
+        after = M.state_dict()
+        changed = [q for q in sorted(before) if q in after and (after[q].shape != before[q].shape or not torch.equal(torch.nan_to_num(after[q]), torch.nan_to_num(before[q])))]
+        if changed:
+            out.violate("rejected_load_changed_state", i, "load_state_dict(%s part, strict=False) raised %s but changed %s" % (part, type(e).__name__, changed[:3]), **cls)
+        return
+    out.stats["probe:partial_state_dict_loaded[%s]" % part] += 1
+    out.stats["oracle_comparisons"] += 1
+    after = M.state_dict()
+    for q in sorted(before):
+        if q not in after:
+            continue
+        if q in aliases:
+            continue
+        if q.endswith("updated_strategy") and q not in chosen and any(c.startswith(q[: -len("updated_strategy")] + "_variational_distribution.") for c in chosen):
+            # variational parameters of this strategy without its format flag: indistinguishable from a checkpoint of the
+            # old unwhitened format, which the library converts on purpose
+            out.stats["probe:legacy_format_conversion"] += 1
+            continue
+        want = sd[q] if q in chosen else before[q]
+        if after[q].shape != want.shape or not torch.equal(torch.nan_to_num(after[q].detach()), torch.nan_to_num(want.detach().to(after[q].dtype))):
+            out.violate(
+                "partial_load_wrong_key",
+                i,
+                "load_state_dict(%s part, strict=False) on the %s model: %s %s" % (part, who, q, "does not hold the loaded value" if q in chosen else "was changed although the dict does not contain it"),
+                key=q.rsplit(".", 1)[-1],
+                in_dict=q in chosen,
+                **cls,
+            )
+            break
+    # (b) fresh-instance comparison of the next prediction
+    probe = {"op": "predict", "seed": op["probe_seed"], "t": 2, "bundle": [], "grad": False}
+    try:
+        F = zoo.fresh_model(recipe, zoo.model_state(M, recipe)) if live.is_var else zoo.fresh_exact(recipe, zoo.exact_state(M))
+        F.eval()
+        F.likelihood.eval()
+        rf = driver.predict(F, driver.test_args(recipe, probe), probe, False)
+    except Exception as e:  # noqa
+        out.stats["probe:partial_load_fresh_unavailable_" + type(e).__name__] += 1
+        return
+    was = driver.module_modes(M)
+    driver.set_mode(live, False) if M.training else None
+    rm = driver.predict(M, driver.test_args(recipe, probe), probe, False)
+    if rm[0] == "ok" and rf[0] == "ok":
+        bad, mx = compare.compare_obs(rm[1], rf[1], tol)
+        out.stats["probe:prediction_after_partial_load_vs_fresh"] += 1
+        if bad:
+            out.violate("stale_after_load", i, "after load_state_dict(%s part, strict=False), %s of the %s model differs from a freshly constructed model with the same state by %.3g" % (part, bad[0][0], who, bad[0][1]), quantity=bad[0][0].split("_")[0], **cls)
 
 
 def pure_rejection(recipe, live, op, exc_name):
